@@ -357,7 +357,8 @@ def check(ctx):
         iq = Q + "Deferred.__iter__"
         R = {t.id for n in stmt_nodes(ig, lambda s: True) for t, v in targets_values(ig.node(n).ast) if isinstance(t, ast.Name) and v is not None and _reads_self_result(v)}
         read_nodes = stmt_nodes(ig, lambda st: any(isinstance(t, ast.Name) and v is not None and _reads_self_result(v) for t, v in targets_values(st)))
-        ctx.need(R, "`result = getattr(self, 'result', _NO_RESULT)` in Deferred.__iter__")
+        ctx.check(bool(R), "await/only-with-result", iq + " | <result read from the Deferred>",
+                  "__iter__ no longer reads the Deferred's result (self.result / getattr(self, 'result', _NO_RESULT)) into a local before deciding")
         isR = lambda e: isinstance(e, ast.Name) and e.id in R
         yields = ig.find(lambda x: isinstance(x, (ast.Yield, ast.YieldFrom)))
         ctx.check(bool(yields), "await/suspends", iq, "__iter__ never yields: awaiting an unfired Deferred cannot suspend")
@@ -416,10 +417,13 @@ def _uncast(e):
 
 
 def _reads_self_result(v) -> bool:
-    if attr_of(v, "result", "self"):
-        return True
-    return isinstance(v, ast.Call) and dotted(v.func) == "getattr" and len(v.args) >= 2 and is_name(v.args[0], "self") \
-        and isinstance(v.args[1], ast.Constant) and v.args[1].value == "result"
+    for x in ast.walk(v):
+        if attr_of(x, "result", "self"):
+            return True
+        if isinstance(x, ast.Call) and dotted(x.func) == "getattr" and len(x.args) >= 2 and is_name(x.args[0], "self") \
+                and isinstance(x.args[1], ast.Constant) and x.args[1].value == "result":
+            return True
+    return False
 
 
 def _canceller_ok(dcall, status_name) -> bool:
@@ -474,6 +478,14 @@ MUTANTS = [
     Mutant("suspend-without-recording", D, "                status.waitingOn = result  # type: ignore[assignment]\n", "", expect_rule="cancel-target/recorded"),
     Mutant("return-dropped-after-callback", D, "            status.deferred.callback(callbackValue)\n            return\n", "            status.deferred.callback(callbackValue)\n",
            expect_rule="fire/then-return"),
+    Mutant("failure-bypasses-helper", D, "result.addBoth(_gotResultInlineCallbacks, waiting, gen, status, context)",
+           "result.addCallbacks(_gotResultInlineCallbacks, _inlineCallbacks, callbackArgs=(waiting, gen, status, context), errbackArgs=(gen, status, context))",
+           expect_rule="await/both-outcomes-resume"),
+    Mutant("failure-route-swaps-gen-and-status", D, "result.addBoth(_gotResultInlineCallbacks, waiting, gen, status, context)",
+           "result.addCallbacks(_gotResultInlineCallbacks, _gotResultInlineCallbacks, callbackArgs=(waiting, gen, status, context), errbackArgs=(waiting, status, gen, context))",
+           expect_rule="await/helper-continues-same-run"),
+    Mutant("await-reads-no-result", D, "            result = getattr(self, \"result\", _NO_RESULT)\n            if result is _NO_RESULT:\n                yield self\n                continue\n\n            if isinstance(result, Failure):",
+           "            if not self.called:\n                yield self\n                continue\n            result = self.callbacks\n            if isinstance(result, Failure):", expect_rule="await/"),
 ]
 SILENT = [
     Silent("cancel-attribute-directly", D, "    awaited = status.waitingOn\n    assert awaited is not None\n    awaited.cancel()\n", "    assert status.waitingOn is not None\n    status.waitingOn.cancel()\n"),
@@ -490,4 +502,8 @@ SILENT = [
            "    fresh = Deferred(lambda d: _addCancelCallbackToDeferred(d, status))\n    status.deferred = fresh\n\n    # We would",
            more=[(D, "    awaited.cancel()\n\n    return status.deferred\n", "    awaited.cancel()\n\n    return fresh\n")]),
     Silent("callback-inside-handler", D, "            stopIteration = True\n            callbackValue = getattr(e, \"value\", None)\n", "            status.deferred.callback(getattr(e, \"value\", None))\n            return\n"),
+    Silent("registration-by-keywords", D, "result.addBoth(_gotResultInlineCallbacks, waiting, gen, status, context)",
+           "result.addCallbacks(callback=_gotResultInlineCallbacks, errback=_gotResultInlineCallbacks, callbackArgs=(waiting, gen, status, context), errbackArgs=(waiting, gen, status, context))"),
+    Silent("await-conditional-read", D, "            result = getattr(self, \"result\", _NO_RESULT)\n            if result is _NO_RESULT:\n                yield self",
+           "            result = self.result if self.called else _NO_RESULT\n            if result is _NO_RESULT:\n                yield self"),
 ]
